@@ -98,6 +98,40 @@ def doc_names(nodes):
     return out
 
 
+CHARSETS = ["UTF-8", "utf-8", "Shift_JIS", "ISO-8859-1", "Windows-1252", "x y", ""]
+
+
+def add_meta(r, nodes):
+    """a declaration <meta charset=..> / <meta http-equiv=.. content=..>, somewhere at the top level or inside the first element: the tree
+    builder replaces these two values by objects of its own when the Tag is created - AFTER the filter was asked about the raw values;
+    they are still the same strings to every criterion"""
+    v = r.choice(CHARSETS)
+    if r.random() < 0.5:
+        meta = ("e", "meta", [("charset", v)] + ([("id", "a")] if r.random() < 0.3 else []), [])
+    else:
+        meta = ("e", "meta", [("http-equiv", r.choice(["Content-Type", "content-type"])), ("content", f"text/html; charset={v}")], [])
+    nodes = list(nodes)
+    if nodes and nodes[0][0] == "e" and nodes[0][1] in c04.ORD and r.random() < 0.5:
+        nodes[0] = (nodes[0][0], nodes[0][1], nodes[0][2], [meta] + list(nodes[0][3]))
+    else:
+        nodes.insert(r.randint(0, len(nodes)), meta)
+    return nodes
+
+
+def meta_filter(r):
+    k = r.choice(["charset", "charset", "content", "http-equiv"])
+    y = r.random()
+    if k == "charset":
+        crit = (("str", r.choice(CHARSETS)) if y < 0.45 else ("re", re.compile(r.choice(["UTF", "utf", "^[A-Z]", "_JIS$", "^$", "[a-z]-8"]))) if y < 0.75
+                else ("list", r.sample(CHARSETS, 2)) if y < 0.85 else ("true", True) if y < 0.95 else ("false", False))
+    elif k == "content":
+        crit = (("str", "text/html; charset=" + r.choice(CHARSETS)) if y < 0.4 else ("re", re.compile(r.choice(["UTF", "charset=[a-z]", "JIS", "=$"]))) if y < 0.8
+                else ("true", True))
+    else:
+        crit = ("str", r.choice(["Content-Type", "content-type"])) if y < 0.6 else ("re", re.compile("^C"))
+    return Filt("tag", name=("str", "meta") if r.random() < 0.4 else None, attrs={k: crit})
+
+
 def gen_filter(r, present=()):
     names = c04.ORD + c04.VOID + c04.PRES + list(c04.CONT)
     if present and r.random() < 0.7:
@@ -333,7 +367,20 @@ def check_one(ctx, nodes, text, f, stream, lines=None, impls=None, mcases=None):
         impls.append(c03.shape(soup))
         mcases.append({"text": text, "filter": describe(f)})
     if f.kind == "tag":
+        # the statement is relational: "exactly the outermost elements of the FULL PARSE that the same filter matches" - so also ask the
+        # real full parse (the generator's tree below is what the markup describes, which C04 ties to the full parse)
+        try:
+            full = real_parse(text, None)
+            hits = full.find_all(f.strainer())
+            hit_ids = {id(h) for h in hits}
+            outer = [h for h in hits if not any(id(a) in hit_ids for a in h.parents)]
+            rel = c04.shape(type("Kept", (), {"contents": outer})(), with_pos=False)
+        except Exception as e:
+            rel = f"<filtering the full parse raised {type(e).__name__}>"
         want, lost = expected_tag_filter(f, nodes, [], True)
+        if got == want and rel != got:
+            ctx.violation("parse_only result differs from filtering the full parse with the same filter (find_all on the complete tree, outermost hits)",
+                          case={"text": text, "filter": describe(f)}, expected=rel, observed=got, stream=stream)
         nontrivial = want != "" and want != show_nodes(nodes, [])
         ctx.case((text, json.dumps(describe(f), sort_keys=True)) if nontrivial else None,
                  sample={"text": text, "filter": describe(f), "kept": got[:200]} if nontrivial and len(ctx.samples) < 5 else None)
@@ -373,8 +420,14 @@ def run(ctx: Ctx):
     for i in range(ctx.n(6000, 100000)):
         r = ctx.rng("doc", i)
         nodes = c04.gen_tree(r)
+        f = None
+        if r.random() < 0.12:
+            nodes = add_meta(r, nodes)
+            ctx.count("doc:with-meta-declaration")
+            if r.random() < 0.75:
+                f = meta_filter(r)
         text = well_formed_text(r, nodes)
-        f = gen_filter(r, doc_names(nodes))
+        f = f or gen_filter(r, doc_names(nodes))
         check_one(ctx, nodes, text, f, "generated", lines, impls, mcases)
     import re as _re
     drv = Driver()
